@@ -1,3 +1,104 @@
-From Got Require Import Base Sort Unique SortProofs.
-Theorem c15_stub : True. Proof. exact I. Qed.
-Print Assumptions c15_stub.
+(* C15 -- sortx.SliceBy sorts keys and carries values along; Unique* collapse runs.
+   This file contains only the property theorems (full statements), each closed by
+   [exact] of a lemma proved in proofs/SortProofs.v, proofs/SortSorted.v,
+   proofs/UniqueProofs.v, and Print Assumptions.
+   Model: models/Sort.v (introsort of sortx/zfuncversion.go over the two slices, with
+   Less/Swap as the only accesses, a Less counter and explicit fuel), models/Unique.v. *)
+From Got Require Import Base Sort Unique SortProofs UniqueProofs.
+Require Import Permutation Sorted.
+Local Open Scope Z_scope.
+
+(* ---------- SliceBy, for ANY less function (also inconsistent ones) ---------- *)
+
+(* never panics (every Less/Swap index is in range) and never runs out of fuel *)
+Theorem c15_sliceby_no_panic :
+  forall (K V : Type) (less : K -> K -> bool) (keys : list K) (vals : list V),
+    exists s', srt_sliceby less keys vals = SOk s'.
+Proof. exact (@sliceby_no_panic). Qed.
+Print Assumptions c15_sliceby_no_panic.
+
+(* termination: the loop/recursion nesting of quickSort never exceeds
+   maxDepth(n) = 2*bitlen(n) <= 2*(log2 n + 1): any fuel above it suffices *)
+Theorem c15_sliceby_fuel_ok :
+  forall (K V : Type) (less : K -> K -> bool) (keys : list K) (vals : list V) (fuel : nat),
+    let n := srt_prefix_len keys vals in
+    (srt_max_depth n < fuel)%nat ->
+    Z.of_nat (srt_max_depth n) <= 2 * (Z.log2 n + 1) /\
+    exists s', srt_sliceby_fuel less fuel keys vals = SOk s'.
+Proof. exact (@sliceby_fuel_ok). Qed.
+Print Assumptions c15_sliceby_fuel_ok.
+
+(* the (key, value) pairs at equal indices of the first n = min(len keys, len values)
+   positions are a permutation of the original pairs; slice lengths are unchanged *)
+Theorem c15_sliceby_perm_coupled :
+  forall (K V : Type) (less : K -> K -> bool) (keys : list K) (vals : list V) s',
+    srt_sliceby less keys vals = SOk s' ->
+    let n := Nat.min (length keys) (length vals) in
+    length (st_keys s') = length keys /\ length (st_vals s') = length vals /\
+    Permutation (combine (firstn n (st_keys s')) (firstn n (st_vals s')))
+                (combine (firstn n keys) (firstn n vals)).
+Proof. exact (@sliceby_perm_coupled). Qed.
+Print Assumptions c15_sliceby_perm_coupled.
+
+(* elements beyond the first n positions are untouched, in both slices *)
+Theorem c15_sliceby_suffix_untouched :
+  forall (K V : Type) (less : K -> K -> bool) (keys : list K) (vals : list V) s',
+    srt_sliceby less keys vals = SOk s' ->
+    let n := Nat.min (length keys) (length vals) in
+    skipn n (st_keys s') = skipn n keys /\ skipn n (st_vals s') = skipn n vals.
+Proof. exact (@sliceby_suffix_untouched). Qed.
+Print Assumptions c15_sliceby_suffix_untouched.
+
+(* O(n log n) Less calls on every input and for every less: count <= 12 n (log2 n + 2) *)
+Theorem c15_sliceby_comparisons :
+  forall (K V : Type) (less : K -> K -> bool) (keys : list K) (vals : list V) s',
+    srt_sliceby less keys vals = SOk s' ->
+    let n := srt_prefix_len keys vals in
+    Z.of_N (st_cmp s') <= 12 * n * (Z.log2 n + 2).
+Proof. exact (@sliceby_comparisons). Qed.
+Print Assumptions c15_sliceby_comparisons.
+
+(* ---------- Unique ---------- *)
+
+(* UniqueInt/UniqueString never panic; the returned slice is the input with every run
+   collapsed (unq_collapse), it is a prefix of the backing array and the rest of the
+   array is untouched *)
+Theorem c15_unique_spec :
+  forall (A : Type) (eqb : A -> A -> bool) (l : list A),
+    unq_unique eqb l =
+      Ok (unq_collapse eqb l, unq_collapse eqb l ++ skipn (length (unq_collapse eqb l)) l).
+Proof. exact (@unq_unique_spec). Qed.
+Print Assumptions c15_unique_spec.
+
+(* what "collapsed" means, independently of the loop: if the input is the concatenation
+   of non-empty runs x1^(n1+1) x2^(n2+1) ... with adjacent x_i different, the result is
+   exactly x1 x2 ... (each run collapsed to its first element, order preserved) *)
+Theorem c15_unique_runs :
+  forall (A : Type) (eqb : A -> A -> bool),
+    (forall x y, eqb x y = true <-> x = y) ->
+    forall runs : list (A * nat),
+      unq_adjacent_distinct (map fst runs) ->
+      unq_collapse eqb (unq_expand runs) = map fst runs.
+Proof. exact (@unq_collapse_runs). Qed.
+Print Assumptions c15_unique_runs.
+
+(* no two adjacent elements of the result are equal; the result is a subsequence *)
+Theorem c15_unique_adjacent_distinct :
+  forall (A : Type) (eqb : A -> A -> bool),
+    (forall x y, eqb x y = true <-> x = y) ->
+    forall l, unq_adjacent_distinct (unq_collapse eqb l) /\ unq_subseq (unq_collapse eqb l) l.
+Proof.
+  exact (fun A eqb H l => conj (unq_collapse_adjacent eqb H l) (unq_collapse_subseq eqb l)).
+Qed.
+Print Assumptions c15_unique_adjacent_distinct.
+
+(* sorted input -> strictly increasing result *)
+Theorem c15_unique_sorted_strict :
+  forall l : list Z, StronglySorted Z.le l -> StronglySorted Z.lt (unq_collapse Z.eqb l).
+Proof. exact unq_collapse_sorted. Qed.
+Print Assumptions c15_unique_sorted_strict.
+
+(* non-vacuity *)
+Example c15_nonvacuous :
+  unq_unique_z [1; 1; 2; 2; 2; 3; 1; 1] = Ok ([1; 2; 3; 1], [1; 2; 3; 1; 2; 3; 1; 1]).
+Proof. exact unq_example. Qed.
